@@ -252,6 +252,23 @@ def order(ctx):
         if must_iter:
             ok = any(must_iter in t for t in texts)
             ctx.ob(ok, u, 'iterates %s' % must_iter, 'loops iterate: %s' % texts)
+    # a list spec maps over the *registered* iteration of the target
+    u = ctx.unit('core._handle_list')
+    lcfg = ctx.cfg(u)
+    for lp in [n for n in u.own_nodes() if isinstance(n, ast.For)]:
+        it = lp.iter
+        if isinstance(it, ast.Call) and is_name(it.func, 'enumerate') and it.args:
+            it = it.args[0]
+        d = deref(lcfg, lcfg.node_of(lp), it)
+        ok = isinstance(d, ast.Call) and len(d.args) == 1 and is_name(d.args[0], u.params[0])
+        if ok:
+            h = deref(lcfg, lcfg.node_containing(d), d.func)
+            ok = isinstance(h, ast.Call) and isinstance(h.func, ast.Attribute) and h.func.attr == 'get_handler' \
+                and h.args and isinstance(h.args[0], ast.Constant) and h.args[0].value == 'iterate' \
+                and len(h.args) > 1 and is_name(h.args[1], u.params[0])
+        ctx.ob(ok, u, "a list spec iterates what the target's registered 'iterate' handler yields: for %s in %s"
+               % (src(lp.target, 30), src(lp.iter, 50)),
+               '' if ok else 'the loop does not run over iterate(target) of the handler looked up for the target', node=lp)
     # Or: all but the last child in order, then the last
     u = ctx.unit('matching.Or._glomit')
     sl = [n for n in u.own_nodes() if isinstance(n, ast.Subscript) and isinstance(n.value, ast.Attribute)
@@ -262,7 +279,7 @@ def order(ctx):
     okl = any(isinstance(s.slice, ast.UnaryOp) and isinstance(s.slice.operand, ast.Constant)
               and s.slice.operand.value == 1 for s in sl)
     ctx.ob(okf and okl, u, 'Or tries children[:-1] in order, then children[-1]: %s' % [norm(s) for s in sl])
-    ctx.floor(14)
+    ctx.floor(15)
 
 
 @rule('C03.4')
